@@ -41,7 +41,7 @@ func renameKey(m map[string]json.RawMessage, from, to string) {
 }
 
 // payloadMutator applies the payload-level deviations to {"targetArtifact": {...}}.
-func payloadMutator(devs map[string]bool) func([]byte) []byte {
+func payloadMutator(devs map[string]bool, salt uint32) func([]byte) []byte {
 	return func(in []byte) []byte {
 		var top map[string]json.RawMessage
 		must(json.Unmarshal(in, &top))
@@ -53,7 +53,14 @@ func payloadMutator(devs map[string]bool) func([]byte) []byte {
 			must(json.Unmarshal(raw, &ann))
 		}
 		if devs["otherDigest"] {
-			set("digest", digestOf(digest.SHA256, []byte("a different artifact")))
+			// another digest: of other content, or the requested one re-spelled (upper-case hex: another string, and no valid digest)
+			var req string
+			_ = json.Unmarshal(t["digest"], &req)
+			if a, h, ok := strings.Cut(req, ":"); ok && salt%3 == 1 {
+				set("digest", a+":"+strings.ToUpper(h))
+			} else {
+				set("digest", digestOf(digest.SHA256, []byte("a different artifact")))
+			}
 		}
 		if devs["otherSize"] {
 			var n int64
@@ -61,7 +68,10 @@ func payloadMutator(devs map[string]bool) func([]byte) []byte {
 			set("size", n+1)
 		}
 		if devs["otherMediaType"] {
-			set("mediaType", mtB)
+			// another media type: unrelated, or a near miss of the requested one (letter case, a parameter, padding)
+			var req string
+			_ = json.Unmarshal(t["mediaType"], &req)
+			set("mediaType", []string{mtB, strings.ToUpper(req[:1]) + req[1:], strings.ToUpper(req), req + "; charset=utf-8", req + " "}[salt%5])
 		}
 		if devs["annDropped"] && ann != nil {
 			delete(ann, "org.example/build")
@@ -167,10 +177,10 @@ func runPluginSigner() int {
 		if in.KeySpec == "EC-384" {
 			otherKS = "EC-256"
 		}
-		p := &signPlugin{name: "scripted", chain: chain, other: rtChain(otherKS), dev: devs, ann: map[string]string{"plugin.note": "x"}}
+		p := &signPlugin{name: "scripted", chain: chain, other: rtChain(otherKS), dev: devs, ann: map[string]string{"plugin.note": "x"}, salt: mix(*flagSeed, c.ID, "render")}
 		if in.Path == "envelope" {
 			p.caps = []pf.Capability{pf.CapabilityEnvelopeGenerator}
-			p.mutPayload = payloadMutator(devs)
+			p.mutPayload = payloadMutator(devs, mix(*flagSeed, c.ID, "render"))
 		} else {
 			p.caps = []pf.Capability{pf.CapabilitySignatureGenerator}
 		}
